@@ -20,7 +20,7 @@ IdleOK == IsIdle(s) => M!Idle(mon).bad = ""
 Agree  == IsIdle(s) => \A k \in DOMAIN mon.pres : mon.pres[k] <=> (k \in s.store["ts"])
 
 Ops(addrs, keys, ttls) ==
-  {[op |-> "ts_refresh", a |-> a, key |-> k, ttl |-> t] : a \in addrs, k \in keys, t \in ttls}
+  {[op |-> "ts_refresh", a |-> a, key |-> k, ttl |-> t, nak |-> n] : a \in addrs, k \in keys, t \in ttls, n \in BOOLEAN}
   \cup {[op |-> "ts_stop", a |-> a, key |-> k] : a \in addrs, k \in keys}
   \cup {[op |-> "ts_stopaddr", a |-> a] : a \in addrs} \cup {[op |-> "ts_stopall"]}
   \cup {[op |-> "ts_stopmatch", keys |-> <<k>>] : k \in keys}
